@@ -1083,6 +1083,7 @@ impl<'a> Ev<'a> {
                                 let hi = match &deps[1] { Val::Int(i) => *i as usize, _ => x.len() };
                                 if lo <= hi && hi <= x.len() { Val::Str(x[lo..hi].to_string()) } else { Val::opaque("index", vec![base.clone(), idx]) }
                             }
+                            (Val::Opaque { what, deps }, _) if what == "default-array" && deps.len() == 1 => deps[0].clone(),
                             (Val::Sym { ty, path }, _) if ty.arg0().name() == Some("bool") => Val::Atom(F::A(format!("{path}[{}]", idx.short()))),
                             (Val::Sym { ty, path }, _) => Val::Sym { ty: ty.arg0(), path: format!("{path}[{}]", idx.short()) },
                             _ => Val::opaque("index", vec![base.clone(), idx]),
@@ -1871,6 +1872,8 @@ impl<'a> Ev<'a> {
     }
     /// value of `<T as Default>::default()` for the field types the generator uses
     fn default_val(&self, t: &syn::Type) -> Val {
+        // `[T; N]::default()`: every element is the element type's default, whatever N is
+        if let syn::Type::Array(a) = t { return Val::opaque("default-array", vec![self.default_val(&a.elem)]); }
         let ty = Ty::from_syn(t);
         match ty.name() {
             Some("Option") => Val::none(),
